@@ -89,6 +89,8 @@ static std::string run_tower(int level, const std::string& m, int alias, unsigne
         if (tower_common<Fq2>(m, alias, power, in, res)) return res;
         Fq2 a, out; el_from_hex(a, in[0]); Fq2* po = (alias & 1) ? &a : &out;
         if (m == "multiply_by_nonresidue") { po->multiply_by_nonresidue(a); return el_to_hex(*po); }
+        if (m == "square_root") { out.square_root(a); return el_to_hex(out); }
+        if (m == "legendre") { return std::to_string(a.legendre()); }
     } else if (level == 2) {
         if (tower_common<Fq6>(m, alias, power, in, res)) return res;
         Fq6 a, out; el_from_hex(a, in[0]); Fq6* po = (alias & 1) ? &a : &out;
